@@ -77,7 +77,8 @@ def hash_update(M, elems):
                 buffer = e.data
                 M.update(buffer)
             except:
-                M.update(e.copy().data)
+                # non-contiguous arrays and dtypes without buffer support (datetime64, timedelta64)
+                M.update(e.tobytes())
         else:
             M.update(pickle.dumps(e))
     return M
